@@ -59,6 +59,9 @@ def _h5_sensor(g, name, rows, vdtype):
     g.create_dataset(name, data=np.array([(t, v, b'nominal') for t, v in rows], dtype=dt))
 
 
+UNSIGNED = {'u': np.uint8, 'u16': np.uint16, 'u32': np.uint32, 'u64': np.uint64}     # sensor kinds of unsigned integer types
+
+
 def _rows(spec, t0, kind, samples):
     dt = spec['dt']
     if kind == 'f':
@@ -67,8 +70,8 @@ def _rows(spec, t0, kind, samples):
         return [(t0 + dt * d - 0.9 - (16.0 if d == 0 else 0.0), v.encode()) for d, v in samples], 'S16'
     if kind == 'b':
         return [(t0 + dt * d - 0.9 - (16.0 if d == 0 else 0.0), bool(v)) for d, v in samples], np.bool_
-    if kind == 'u':
-        return [(t0 + dt * d - 0.9 - (16.0 if d == 0 else 0.0), int(v)) for d, v in samples], np.uint8
+    if kind in UNSIGNED:
+        return [(t0 + dt * d - 0.9 - (16.0 if d == 0 else 0.0), int(v)) for d, v in samples], UNSIGNED[kind]
     return [(t0 + dt * d - 0.9 - (16.0 if d == 0 else 0.0), int(v)) for d, v in samples], np.int64
 
 
@@ -91,7 +94,7 @@ class Part:
                 if kind == 'f':
                     rows = [(t0 + spec['dt'] * pos / 4.0, float(v)) for pos, v in samples]
                 else:
-                    conv = {'b': bool, 'u': np.uint8}.get(kind, lambda v: v)
+                    conv = dict(UNSIGNED, b=bool).get(kind, lambda v: v)
                     rows = [(t0 + spec['dt'] * d - 0.9 - (16.0 if d == 0 else 0.0), conv(v)) for d, v in samples]
                 extra.append((sensor_name(fmt, short), rows))
             kw = dict(T=spec['T'], F=spec['F'], ants=tuple(spec['ants']), cbid='%010d' % (1000000000 + spec['start']),
